@@ -293,6 +293,35 @@ def seek_searches(ctx, rule='C08.seek-searches'):
                        'wrong for a key outside that subtree' % (X.loc(rets[0]), sr.qual), where=X.loc(rets[0])))
     else:
         res.append(ok(rule, 'every return of Cursor::seek passes the tree search (%d call site(s))' % len(S), sites=len(S)))
+    # a search that FILLS a stack it is handed (`&mut self.stack`) must find it empty: frames of the previous position left underneath the new path are walked
+    # again once the new path is exhausted
+    from flow import Prov
+    pv = Prov(X)
+    for sb, stt, sc in calls_to_fn(ctx.facts, X, sr):
+        for ai, a in enumerate(stt['args']):
+            pl = op_place(a)
+            if pl is None or not X.locals[pl['l']]['ty'].startswith('&mut std::vec::Vec<'):
+                continue
+            if not any(a2 and last_seg(a2) == 'Cursor' and nm2 == 'stack' for a2, nm2 in pv.of_operand(a)[0]):
+                continue
+            cleared = False
+            for cb, ct, cc in calls_named(ctx.facts, X, 'Vec::clear', 'Vec::truncate', 'Vec::drain'):
+                if ct['args'] and any(a2 and last_seg(a2) == 'Cursor' and nm2 == 'stack' for a2, nm2 in pv.of_operand(ct['args'][0])[0]) and X.dominates(cb, sb):
+                    cleared = True
+            if not cleared:
+                # ... or the search itself empties its parameter before it pushes
+                pvs = Prov(sr)
+                pushes = [b for b, t2, c2 in calls_named(ctx.facts, sr, 'Vec::push')]
+                for cb, ct, cc in calls_named(ctx.facts, sr, 'Vec::clear', 'Vec::truncate'):
+                    l0 = op_local(ct['args'][0]) if ct['args'] else None
+                    if l0 is not None and ctx.du(sr).root_of(l0) == ai + 1 and all(sr.dominates(cb, pb) for pb in pushes):
+                        cleared = True
+            if cleared:
+                res.append(ok(rule, 'the stack handed to the tree search at %s is emptied first' % X.loc(sb), sites=1))
+            else:
+                res.append(bad(rule, '%s | search appends to a stack that was not emptied' % sk.qual,
+                               'Cursor::seek hands `&mut self.stack` to the tree search at %s without clearing it first (and the search does not clear it): the frames of the previous '
+                               'position stay under the new path, and iteration resumes from the old position once the new path is exhausted' % X.loc(sb), where=X.loc(sb)))
     return res
 
 
@@ -473,8 +502,20 @@ def seek_reset(ctx, rule='C08.seek-reset'):
     # the flag that next sets to true when it hands out the current position: seek must clear it (false), the others only need re-initialising
     handed = [fl for fl in written if any(s2['rv']['k'] == 'use' and op_const_val(s2['rv']['op']) == 1 for bb, si, s2 in stores_to_field(X, 'Cursor', fl))]
     n = 0
+    from flow import Prov
+    sr0 = ctx.A.get('search-role')
     for fn in sorted(F.fns, key=lambda g: g.path):
         st = stores_to_field(fn, 'Cursor', 'stack')
+        if not st and sr0 is not None and fn.kind != 'Closure':
+            # ... or the search is handed `&mut self.stack` to fill
+            pv0 = None
+            for sb, stt, sc in calls_to_fn(F, fn, sr0):
+                for a in stt['args']:
+                    pl = op_place(a)
+                    if pl is not None and fn.locals[pl['l']]['ty'].startswith('&mut std::vec::Vec<'):
+                        pv0 = pv0 or Prov(fn)
+                        if any(a2 and last_seg(a2) == 'Cursor' and nm2 == 'stack' for a2, nm2 in pv0.of_operand(a)[0]):
+                            st = [(sb, 0, None)]
         if not st or fn.name == 'new' or fn.trait:
             continue
         n += 1
@@ -492,7 +533,7 @@ def seek_reset(ctx, rule='C08.seek-reset'):
             if fl == 'next_called' or (len(written) == 1 and fl in handed):
                 res.append(bad(rule, '%s | new stack without clearing next_called' % fn.qual,
                                '%s replaces the cursor\'s search stack (%s) but can return without setting `%s` = false: the first next() after a seek would skip the entry the cursor '
-                               'was positioned on' % (fn.qual, fn.loc(st[0][0], st[0][1]), fl), where=fn.loc(st[0][0], st[0][1])))
+                               'was positioned on' % (fn.qual, fn.loc(st[0][0]), fl), where=fn.loc(st[0][0])))
             else:
                 res.append(bad(rule, '%s | new stack without resetting Cursor.%s' % (fn.qual, fl),
                                '%s installs a new search stack but can return without resetting the iteration flag `%s`, which Cursor::next sets: a cursor that was run to '
@@ -576,7 +617,22 @@ def stack_never_emptied(ctx, rule='C08.stack-never-emptied'):
                             stack_len = True
                 if stack_len and any(x[0] == 'const' and x[1] == 1 for x in da) and not any(x[0] == 'bin' and x[1].startswith(('Add', 'Sub')) for x in da):
                     guarded = True
-            if name == 'pop' and guarded:
+            refilled = False
+            if name == 'clear':
+                # emptied only to be refilled from the root: every path from here to a return passes a call of the tree search that takes this stack
+                sr = ctx.A.get('search-role')
+                if sr is not None:
+                    fills = set()
+                    for sb, stt, sc in calls_to_fn(F, fn, sr):
+                        for a in stt['args']:
+                            fs2, _ = pv.of_operand(a)
+                            if any(a2 and last_seg(a2) == 'Cursor' and nm2 == 'stack' for a2, nm2 in fs2):
+                                fills.add(sb)
+                    if fills and not [b for b in fn.reach_from(fn.succ(bb), avoid=fills) if fn.term(b)['k'] == 'return']:
+                        refilled = True
+            if refilled:
+                res.append(ok(rule, 'the search stack is cleared at %s only to be refilled by the tree search on every path' % fn.loc(bb), sites=1))
+            elif name == 'pop' and guarded:
                 res.append(ok(rule, 'pop of the search stack at %s is controlled by a test that more than one level is left' % fn.loc(bb), sites=1))
             else:
                 res.append(bad(rule, '%s | search stack can be emptied (%s)' % (fn.qual, name),
